@@ -124,9 +124,11 @@ func c08TagExpr(rng *rand.Rand, val string) (expr, class string) {
 		b := []byte(val + "z")
 		b[rng.Intn(len(b))] ^= 1
 		return "^" + regexp.QuoteMeta(string(b)) + "$", "tag-near-miss"
-	case x < 45:
+	case x < 43:
 		return "", "tag-empty-expr"
-	case x < 50:
+	case x < 47:
+		return val, "tag-value-as-expression" // the tag's value spelled out as the pattern: still a pattern
+	case x < 51:
 		return strings.ToUpper(val), "tag-case"
 	default:
 		return c08Regex(rng, val, 3), "tag-grammar"
@@ -236,7 +238,8 @@ func TestC08(t *testing.T) {
 	perBubble := r.N(25, 50)
 	nodeNames := []string{"n1", "web-01", "Node.A", "ab"}
 	tagKeyPool := []string{"role", "dc", "ver", "x y", "ROLE", ""}
-	tagValPool := []string{"web", "db", "web-1", "", "a|b", "us-east", "v1.2.3", "Web", "(x)", "w"}
+	// (the last five do not match themselves when read as an expression, "c++" does not even compile)
+	tagValPool := []string{"web", "db", "web-1", "", "a|b", "us-east", "v1.2.3", "Web", "(x)", "w", "c++", "web(1)", "^east", "$5", "a+b"}
 
 	r.Cases("bubble", nBubbles, 0, func(ci int, rng *rand.Rand) {
 		node := nodeNames[rng.Intn(len(nodeNames))]
@@ -340,6 +343,90 @@ func TestC08(t *testing.T) {
 				sameTime := qi > 0 && rng.Intn(3) == 0 // another query with the Lamport time of the previous one (other origin / id)
 				if !sameTime {
 					lt += uint64(1 + rng.Intn(3))
+				}
+				if rng.Intn(10) == 0 {
+					// a query the node itself starts through the API, with filters that may leave it out (the
+					// usual "ask the others"): it has seen that query first when it issued it, so it is queued
+					// for gossip once, delivered locally iff the filters select the node, and an echo from the
+					// network causes nothing
+					params := nd.S.DefaultQueryParams()
+					params.Timeout = time.Second
+					sel := true
+					var desc string
+					switch rng.Intn(4) {
+					case 0:
+						params.FilterNodes = []string{"somebody-else", "other"}
+						sel, desc = false, "nodes(others)"
+					case 1:
+						params.FilterNodes = []string{node, "other"}
+						desc = "nodes(self,other)"
+					case 2:
+						k := tagKeys[rng.Intn(len(tagKeys))]
+						expr, _ := c08TagExpr(rng, tags[k])
+						params.FilterTags = map[string]string{k: expr}
+						re, err := regexp.Compile(expr)
+						sel = err == nil && re.MatchString(tags[k])
+						desc = fmt.Sprintf("tag(%q~%q)", k, expr)
+					default:
+						desc = "none"
+					}
+					name := fmt.Sprintf("own-%d-%d", ci, qi)
+					ownEvents := func() int {
+						synctest.Wait()
+						n := 0
+						evs := nd.Events()
+						for _, le := range evs[evSeen:] {
+							if sq, ok := le.E.(*serf.Query); ok && sq.Name == name {
+								n++
+							}
+						}
+						evSeen = len(evs)
+						return n
+					}
+					ownQueued := func() (n int, raw []byte) {
+						for _, b := range nd.ML.Delegate.GetBroadcasts(0, 1<<30) {
+							var m wire.MsgQuery
+							if len(b) > 0 && b[0] == wire.Query && wire.Decode(b[1:], &m) == nil && m.Name == name {
+								n++
+								raw = append([]byte(nil), b...)
+								if m.LTime > lt {
+									lt = m.LTime
+								}
+							}
+						}
+						nd.DrainBroadcasts()
+						return
+					}
+					resp, err := nd.S.Query(name, []byte("p"), params)
+					if err == nil {
+						counts["own_queries"]++
+						if !sel {
+							counts["own_queries_excluding_the_node_itself"]++
+						}
+						delivered := ownEvents()
+						queued, raw := ownQueued()
+						want := 0
+						if sel {
+							want = 1
+						}
+						if delivered != want {
+							viols = append(viols, viol{"own-query/delivery", fmt.Sprintf("query %q started on node %q (tags %v) with filters %s: delivered locally %d times, want %d", name, node, tags, desc, delivered, want), nil})
+						}
+						if queued != 1 {
+							viols = append(viols, viol{"own-query/broadcast", fmt.Sprintf("query %q started on the node with filters %s: queued for gossip %d times, want 1", name, desc, queued), nil})
+						}
+						if raw != nil {
+							nd.NotifyMsg(raw) // the echo of a peer's re-broadcast
+							d2 := ownEvents()
+							q2, _ := ownQueued()
+							if d2 != 0 || q2 != 0 {
+								viols = append(viols, viol{"own-query/echo", fmt.Sprintf("query %q started on the node with filters %s (selects the node: %v): its echo from the network was delivered %d times and queued for gossip %d times, want none (the node saw the query first when it issued it)", name, desc, sel, d2, q2), nil})
+							}
+							counts["own_query_echoes"]++
+						}
+						resp.Close()
+						msgSeen = len(p.Received())
+					}
 				}
 				q := c08GenQuery(rng, node, tags, tagKeys, p, lt)
 				if sameTime && (q.M.ID == history[len(history)-1].M.ID || bytes.Equal(q.Raw, history[len(history)-1].Raw)) {
@@ -462,7 +549,7 @@ func TestC08(t *testing.T) {
 	if r.Counter("selected") < int64(r.N(1200, 10000)) || r.Counter("excluded") < int64(r.N(1200, 10000)) || r.Counter("acks_expected") < int64(r.N(450, 4000)) {
 		r.Inconclusive(fmt.Sprintf("too few selected/excluded/acked queries observed: %d/%d/%d", r.Counter("selected"), r.Counter("excluded"), r.Counter("acks_expected")))
 	}
-	r.Finish("generated queries (0-4 filters: node lists with own name / prefixes / case variants / empty, tag filters from a regex grammar incl. anchors, alternation, classes, invalid patterns, raw undecodable bodies, unknown filter types; ack / no-broadcast / unknown flag bits; six internal names, unknown internal names and near-miss prefixes) sent twice (puppet UDP or NotifyMsg) to a real node with generated name and tags; compared with the harness's own filter evaluation: EventCh deliveries, acks at the origin puppet, gossip queue contents, late duplicates. Non-trivial = has filters, an internal name or flags; distinct by (node, tags, name, filters, flags)",
+	r.Finish("generated queries (0-4 filters: node lists with own name / prefixes / case variants / empty, tag filters from a regex grammar incl. anchors, alternation, classes, invalid patterns, raw undecodable bodies, unknown filter types; ack / no-broadcast / unknown flag bits; six internal names, unknown internal names and near-miss prefixes) sent twice (puppet UDP or NotifyMsg) to a real node with generated name and tags; compared with the harness's own filter evaluation: EventCh deliveries, acks at the origin puppet, gossip queue contents, late duplicates; a tenth of the steps are queries the node itself starts through the API (filters that select or exclude it) followed by their echo from the network. Non-trivial = has filters, an internal name or flags; distinct by (node, tags, name, filters, flags)",
 		r.N(4000, 30000),
 		"filter bodies are decoded in the harness with the same msgpack library (go-msgpack) but its own structs; zero-length filters are excluded (C09)",
 		"re-broadcast is observed as presence of the identical bytes in the node's query broadcast queue (passive memberlist)")
